@@ -57,7 +57,8 @@ class Flow:
         for l, ds in self.defs.items():
             if len(ds) == 1 and ds[0][1] != "term":
                 rv = ds[0][2]["rv"]
-                if rv["k"] == "agg" and rv.get("kind") == "tuple":
+                if rv["k"] == "agg" and (rv.get("kind") == "tuple" or (rv.get("kind") == "adt" and rv.get("variant") == (rv.get("adt") or "").split("::")[-1])):
+                    # tuples and plain struct literals (variant name == type name): operands in field order
                     self.tuples[l] = [(op_place(o) or {}).get("l") if not (op_place(o) or {}).get("pr") else None for o in rv["ops"]]
 
     def src_locals(self, rv):
@@ -68,13 +69,20 @@ class Flow:
             p = op_place(rv["op"])
         elif k in ("ref", "rawptr", "discr"):
             p = rv["p"]
-        if p is not None and p["l"] in self.tuples:
-            fs = [e for e in p["pr"] if e[0] != "*"]
-            if fs and fs[0][0] == "f":
-                idx = fs[0][4] if len(fs[0]) > 4 else None
-                ops = self.tuples[p["l"]]
-                if idx is not None and idx < len(ops) and ops[idx] is not None:
-                    return [ops[idx]]
+        if p is not None:
+            base = p["l"]
+            if base not in self.tuples and p["pr"] and p["pr"][0][0] == "*":
+                # a field read through a reference to a locally built tuple / struct: `(*r).f` with `r = &t`
+                c = self.canon_local(base)
+                if not c[1] and c[0] in self.tuples:
+                    base = c[0]
+            if base in self.tuples:
+                fs = [e for e in p["pr"] if e[0] != "*"]
+                if fs and fs[0][0] == "f":
+                    idx = fs[0][4] if len(fs[0]) > 4 else None
+                    ops = self.tuples[base]
+                    if idx is not None and idx < len(ops) and ops[idx] is not None:
+                        return [ops[idx]]
         return rv_source_locals(rv)
 
     # -------------------------------------------------------------- canonical places
@@ -344,11 +352,14 @@ def rv_const_ops(rv):
 def err_blocks(body):
     """Blocks that write the return place as an error: `_0 = from_residual(..)` or `_0 = Err(..)` / `_0 = Break(..)`."""
     out = set()
+    # the return places: the function's own, and that of every helper inlined into it (an error return of an inlined helper is an error path of
+    # the call that was there; the caller either propagates it or handles it on a path that, before inlining, did not see the helper's inside)
+    rets = {0} | {l["i"] for l in body.locals if l.get("inl_ret")}
     for bi, t in body.calls():
-        if t["dest"]["l"] == 0 and not t["dest"]["pr"] and (t.get("callee") or "").endswith("FromResidual::from_residual"):
+        if t["dest"]["l"] in rets and not t["dest"]["pr"] and (t.get("callee") or "").endswith("FromResidual::from_residual"):
             out.add(bi)
     for bi, si, s in body.stmts():
-        if s["k"] == "assign" and s["p"]["l"] == 0 and not s["p"]["pr"]:
+        if s["k"] == "assign" and s["p"]["l"] in rets and not s["p"]["pr"]:
             rv = s["rv"]
             if rv["k"] == "agg" and rv.get("kind") == "adt" and rv.get("variant") in ("Err",):
                 out.add(bi)
@@ -500,9 +511,27 @@ def explore(body, starts, avoid=(), stop=(), env=None, exempt_edges=(), want="re
             continue
         if k == "call":
             d = t["dest"]
+            cal = t.get("callee") or ""
+            # `?` on a value whose variant is known: Some/Ok -> Continue, None/Err -> Break
+            br = None
+            if cal.endswith("Try::branch") and t["args"] and not d["pr"]:
+                a0 = op_place(t["args"][0])
+                if a0 is not None and not a0["pr"]:
+                    src = a0["l"]
+                    if ("d", src) not in e and flow is not None and not flow.canon_local(src)[1]:
+                        src = flow.canon_local(src)[0]
+                    if ("d", src) in e:
+                        ty = body.local_ty(a0["l"]) or ""
+                        if "option::Option<" in ty:
+                            br = 0 if e[("d", src)] == 1 else 1
+                        elif "result::Result<" in ty:
+                            br = 0 if e[("d", src)] == 0 else 1
             e.pop(d["l"], None)
             e.pop(("d", d["l"]), None)
-            cal = t.get("callee") or ""
+            if br is not None:
+                e[("d", d["l"])] = br
+            if force and ("d", d["l"]) in force and not d["pr"]:
+                e[("d", d["l"])] = force[("d", d["l"])]
             if flow is not None and t["args"] and (cal.endswith("Option::is_none") or cal.endswith("Option::is_some")):
                 c0 = flow.canon_op(t["args"][0])
                 if c0 is not None and not c0[1] and ("d", c0[0]) in e and not d["pr"]:
